@@ -68,6 +68,11 @@ pub struct Case {
     /// command name is `move` / `match`)
     #[serde(default)]
     pub raw_cmd: u8,
+    /// other commands in the same file, one before and one after the command under test, with macro
+    /// arguments of their own and parameters that reuse this command's names with other kinds:
+    /// 0 none; 1 the one before has `rename_all = "snake_case"`, the one after nothing; 2 the reverse
+    #[serde(default)]
+    pub neighbours: u8,
 }
 
 pub const CMD_NAMES: [(&str, &str); 3] = [("do_thing", "do_thing"), ("r#move", "move"), ("r#match", "match")];
@@ -81,13 +86,44 @@ impl Case {
             PKind::Injected(i) => INJECTED[i].to_string(),
         }
     }
-    pub fn project(&self) -> Project {
-        let mut s = String::from("use tauri::{AppHandle, State, Window, WebviewWindow, Runtime};\nuse tauri::ipc::Channel;\npub struct AppState;\n\n");
-        s.push_str(&format!("#[tauri::command{}]\npub async fn {}<R: Runtime>(", MACRO_ARGS[self.macro_arg].0, CMD_NAMES[self.raw_cmd as usize % 3].0));
+    fn render_cmd(&self, fn_name: &str) -> String {
+        let mut s = format!("#[tauri::command{}]\npub async fn {}<R: Runtime>(", MACRO_ARGS[self.macro_arg].0, fn_name);
         for p in &self.params {
             s.push_str(&format!("{}: {}, ", NAMES[p.1], self.rust_type(p)));
         }
         s.push_str(") -> Result<i32, String> { Ok(1) }\n");
+        s
+    }
+    /// the commands around the one under test: (function name, the command as a case of its own)
+    pub fn neighbour_cases(&self) -> Vec<(&'static str, Case)> {
+        if self.neighbours == 0 {
+            return vec![];
+        }
+        use heck::ToSnakeCase;
+        // names on which heck's snake_case is the identity (usable under rename_all = "snake_case")
+        let plain: Vec<usize> = (0..NAMES.len()).filter(|i| !NAMES[*i].starts_with("r#") && NAMES[*i].to_snake_case() == NAMES[*i]).collect();
+        let mine: Vec<usize> = self.params.iter().map(|p| p.1).filter(|i| plain.contains(i)).collect();
+        // reuse this command's first usable name with another kind; fill up with fixed ones
+        let shared = mine.first().copied().unwrap_or(plain[1]);
+        let other = plain.iter().copied().find(|i| *i != shared).unwrap();
+        let third = plain.iter().copied().find(|i| *i != shared && *i != other).unwrap();
+        let my_kind = self.params.iter().find(|p| p.1 == shared).map(|p| p.0);
+        let swapped = if my_kind == Some(PKind::Channel) { PKind::Value } else { PKind::Channel };
+        let (m_before, m_after) = if self.neighbours == 1 { (1, 0) } else { (0, 1) };
+        let before = Case { params: vec![(swapped, shared, 1), (PKind::Injected(0), 0, 0), (PKind::Optional, other, 0)], case: self.case.clone(), zod: self.zod, macro_arg: m_before, namesake: 0, raw_cmd: 0, neighbours: 0 };
+        let after = Case { params: vec![(PKind::Optional, shared, 1), (PKind::Channel, third, 2), (PKind::Value, other, 2)], case: self.case.clone(), zod: self.zod, macro_arg: m_after, namesake: 0, raw_cmd: 0, neighbours: 0 };
+        vec![("before_it", before), ("after_it", after)]
+    }
+    pub fn project(&self) -> Project {
+        let mut s = String::from("use tauri::{AppHandle, State, Window, WebviewWindow, Runtime};\nuse tauri::ipc::Channel;\npub struct AppState;\n\n");
+        let nb = self.neighbour_cases();
+        if let Some((name, c)) = nb.first() {
+            s.push_str(&c.render_cmd(name));
+        }
+        s.push_str(&self.render_cmd(CMD_NAMES[self.raw_cmd as usize % 3].0));
+        if let Some((name, c)) = nb.get(1) {
+            s.push_str(&c.render_cmd(name));
+        }
         if self.namesake == 0 {
             return Project::single(s);
         }
@@ -311,7 +347,26 @@ pub fn eval(case: &Case) -> (Vec<Violation>, bool, Option<String>) {
     if !run.ok() {
         return (vec![], false, None);
     }
-    let obs = match observe(&run.files, CMD_NAMES[case.raw_cmd as usize % 3].1) {
+    let (mut vs, acc, mut note) = judge(case, case, &run.files, CMD_NAMES[case.raw_cmd as usize % 3].1);
+    // the commands around it are judged by the same oracle, each under its own macro arguments
+    for (name, nb) in case.neighbour_cases() {
+        let (v, _, n) = judge(&nb, case, &run.files, name);
+        vs.extend(v.into_iter().map(|x| x.field("neighbour", name)));
+        note = note.or(n);
+    }
+    (vs, acc, note)
+}
+
+/// `case` describes the command called `command`; violations are reported against `whole` (the
+/// project that was generated)
+fn judge(case: &Case, whole: &Case, files: &BTreeMap<String, String>, command: &str) -> (Vec<Violation>, bool, Option<String>) {
+    let mk = |c: &Case, class: &str, detail: String| {
+        let _ = c;
+        let mut v = mk(whole, class, if std::ptr::eq(case, whole) { detail } else { format!("[neighbour command {}: {}] {}", command, case.render_cmd(command).lines().take(2).collect::<Vec<_>>().join(" "), detail) });
+        v.replay = serde_json::to_value(whole).unwrap();
+        v
+    };
+    let obs = match observe(files, command) {
         Ok(o) => o,
         Err(e) if e.starts_with("SYNTAX") => return (vec![], true, Some(e)),
         // a wrapper that is missing is C03's business, a type that is not declared C02's; anything else
@@ -382,6 +437,7 @@ fn mk(case: &Case, class: &str, detail: String) -> Violation {
         .field("mode", if case.zod { "zod" } else { "none" })
         .field("macro", MACRO_ARGS[case.macro_arg].0)
         .field("namesake", case.namesake.to_string())
+        .field("neighbours", case.neighbours.to_string())
         .rank(case.params.len() as u64 * 2 + if case.macro_arg > 0 { 1 } else { 0 })
 }
 
@@ -443,7 +499,7 @@ pub fn run(tier: Tier) -> CheckResult {
             for c in &cases_opt {
                 for zod in [false, true] {
                     for variant in 0..(if matches!(k, PKind::Injected(_)) { 1 } else { 3 }) {
-                        cases.push(Case { params: vec![(*k, n, variant)], case: c.clone(), zod, macro_arg: 0, namesake: 0, raw_cmd: 0 });
+                        cases.push(Case { params: vec![(*k, n, variant)], case: c.clone(), zod, macro_arg: 0, namesake: 0, raw_cmd: 0, neighbours: 0 });
                     }
                 }
             }
@@ -460,7 +516,7 @@ pub fn run(tier: Tier) -> CheckResult {
                 }
                 for c in [None, Some("snake_case".to_string()), Some("PascalCase".to_string())] {
                     for zod in [false, true] {
-                        cases.push(Case { params: vec![(k, n, 0)], case: c.clone(), zod, macro_arg, namesake: 0, raw_cmd: 0 });
+                        cases.push(Case { params: vec![(k, n, 0)], case: c.clone(), zod, macro_arg, namesake: 0, raw_cmd: 0, neighbours: 0 });
                     }
                 }
             }
@@ -471,10 +527,30 @@ pub fn run(tier: Tier) -> CheckResult {
         for k in [PKind::Value, PKind::Optional, PKind::Channel] {
             for n in 0..NAMES.len() {
                 for zod in [false, true] {
-                    let c = Case { params: vec![(k, n, 0), (PKind::Injected(0), 0, 0), (PKind::Channel, (n + 2) % NAMES.len(), 1)], case: None, zod, macro_arg: 0, namesake: 0, raw_cmd };
+                    let c = Case { params: vec![(k, n, 0), (PKind::Injected(0), 0, 0), (PKind::Channel, (n + 2) % NAMES.len(), 1)], case: None, zod, macro_arg: 0, namesake: 0, raw_cmd, neighbours: 0 };
                     // (two Rust names that give one key - `type_` and `r#type` - are not a usable command)
                     if c.key_of(NAMES[n]) != c.key_of(NAMES[(n + 2) % NAMES.len()]) {
                         cases.push(c);
+                    }
+                }
+            }
+        }
+    }
+    // (1d) the command between two others in the same file that have macro arguments of their own and
+    // reuse its parameter names with other kinds: what one command leaves behind must not reach the next
+    for neighbours in 1..=2u8 {
+        for k in [PKind::Value, PKind::Optional, PKind::Channel] {
+            for n in 0..NAMES.len() {
+                for macro_arg in 0..3usize {
+                    use heck::ToSnakeCase;
+                    let bare = NAMES[n].trim_start_matches("r#");
+                    if MACRO_ARGS[macro_arg].1 == Some("snake") && bare.to_snake_case() != bare {
+                        continue;
+                    }
+                    for c in [None, Some("snake_case".to_string())] {
+                        for zod in [false, true] {
+                            cases.push(Case { params: vec![(k, n, 0), (PKind::Injected(4), 0, 0)], case: c.clone(), zod, macro_arg, namesake: 0, raw_cmd: 0, neighbours });
+                        }
                     }
                 }
             }
@@ -518,10 +594,10 @@ pub fn run(tier: Tier) -> CheckResult {
             if MACRO_ARGS[macro_arg].1 == Some("snake") && params.iter().any(|p| NAMES[p.1].trim_start_matches("r#").to_snake_case() != NAMES[p.1].trim_start_matches("r#")) {
                 macro_arg = 0;
             }
-            cases.push(Case { params: params.clone(), case: c.clone(), zod: false, macro_arg, namesake: 0, raw_cmd: 0 });
+            cases.push(Case { params: params.clone(), case: c.clone(), zod: false, macro_arg, namesake: 0, raw_cmd: 0, neighbours: 0 });
             // every list once more next to a same-named non-command function in another file
-            cases.push(Case { params: params.clone(), case: c.clone(), zod: i % 2 == 0, macro_arg: 0, namesake: 1 + (i % 3) as u8, raw_cmd: 0 });
-            cases.push(Case { params, case: c, zod: true, macro_arg, namesake: 0, raw_cmd: 0 });
+            cases.push(Case { params: params.clone(), case: c.clone(), zod: i % 2 == 0, macro_arg: 0, namesake: 1 + (i % 3) as u8, raw_cmd: 0, neighbours: 0 });
+            cases.push(Case { params, case: c, zod: true, macro_arg, namesake: 0, raw_cmd: 0, neighbours: 0 });
         }
     }
     // (3) the configured case changes between two runs into the same output directory (real binary
@@ -534,7 +610,7 @@ pub fn run(tier: Tier) -> CheckResult {
             }
             for zod in [false, true] {
                 for build in [false, true] {
-                    hist.push((Case { params: vec![(PKind::Value, 1, 0), (PKind::Optional, 2, 0), (PKind::Channel, 8, 0), (PKind::Injected(0), 0, 0)], case: after.clone(), zod, macro_arg: 0, namesake: 0, raw_cmd: 0 }, before.clone(), build));
+                    hist.push((Case { params: vec![(PKind::Value, 1, 0), (PKind::Optional, 2, 0), (PKind::Channel, 8, 0), (PKind::Injected(0), 0, 0)], case: after.clone(), zod, macro_arg: 0, namesake: 0, raw_cmd: 0, neighbours: 0 }, before.clone(), build));
                 }
             }
         }
@@ -592,7 +668,7 @@ pub fn run(tier: Tier) -> CheckResult {
     res.coverage.set("cases", cases.len() as u64);
     res.coverage.set("exhaustive", exhaustive);
     res.coverage.set("samples", json!(cases.iter().step_by((cases.len() / 5).max(1)).take(5).collect::<Vec<_>>()));
-    res.coverage.set("rule", "one command per project; parameter lists: every single parameter kind (value, Option, Channel<T> in 3 spellings, 13 spellings of injected parameters) x 11 names x {default, 6 naming-case settings} x both modes, plus all ordered lists of length 2..4 (quick) / 2..5 (thorough) over the kinds menu (lists of four and more over the eight-kind menu); oracle: key sets of the declared parameter type, of the parameter schema and of the object expression reaching invoke (spreads and safeParse results resolved through the parsed AST) equal {case(name) | frontend-filled parameter}, case = heck lowerCamelCase by default (what tauri-macros applies) / serde's field rule for a configured case / the macro's own rename_all argument (#[tauri::command(rename_all = \"snake_case\")], with async / root arguments beside it) before either; omittable iff Option; every list once more next to a file that holds a non-command function of the command's name (with other parameters, sorting before or after the command's file); plus every ordered pair of parameter-case settings as two consecutive runs of the real binary / build path into one output directory (the keys follow the second setting). Non-trivial = accepted and output parsed.");
+    res.coverage.set("rule", "one command per project; and the command between two other commands of the same file that carry macro arguments of their own (rename_all = \"snake_case\" before / after it) and reuse its parameter names with other kinds, all three judged by the same oracle; parameter lists: every single parameter kind (value, Option, Channel<T> in 3 spellings, 13 spellings of injected parameters) x 11 names x {default, 6 naming-case settings} x both modes, plus all ordered lists of length 2..4 (quick) / 2..5 (thorough) over the kinds menu (lists of four and more over the eight-kind menu); oracle: key sets of the declared parameter type, of the parameter schema and of the object expression reaching invoke (spreads and safeParse results resolved through the parsed AST) equal {case(name) | frontend-filled parameter}, case = heck lowerCamelCase by default (what tauri-macros applies) / serde's field rule for a configured case / the macro's own rename_all argument (#[tauri::command(rename_all = \"snake_case\")], with async / root arguments beside it) before either; omittable iff Option; every list once more next to a file that holds a non-command function of the command's name (with other parameters, sorting before or after the command's file); plus every ordered pair of parameter-case settings as two consecutive runs of the real binary / build path into one output directory (the keys follow the second setting). Non-trivial = accepted and output parsed.");
     res.assumptions = vec!["parameter names are snake_case identifiers (on those heck and serde's camelCase agree)".into()];
     res
 }
